@@ -13,7 +13,7 @@ Proof.
 Qed.
 
 Theorem delete_nodes_mg_nil : forall cs d, delete_nodes_mg [] cs d = delete_nodes cs d.
-Proof. intros. apply run_del_mg_nil. Qed.
+Proof. intros. unfold delete_nodes_mg, delete_nodes. destruct (has_root_coord (leaf_coords cs)); [reflexivity|apply run_del_mg_nil]. Qed.
 
 (* more generally: as long as no processed coordinate names, in a parent that has merge keys, the anchor of a
    mapping, the run is the ordinary one *)
@@ -22,7 +22,7 @@ Fixpoint no_ymk_hit (mg : list N) (ps : list pcoord) (d : node) : bool :=
   | [] => true
   | p :: r =>
       match pc_parent p with
-      | None => true
+      | None => no_ymk_hit mg r d
       | Some o =>
           negb (existsb (N.eqb o) mg && is_ymk_anchor (pc_ref p) d) &&
           match del_step p d with ROk d' => no_ymk_hit mg r d' | RErr _ => true end
@@ -32,7 +32,7 @@ Fixpoint no_ymk_hit (mg : list N) (ps : list pcoord) (d : node) : bool :=
 Theorem run_del_mg_no_hit : forall mg ps d, no_ymk_hit mg ps d = true -> run_del_mg mg ps d = run_del ps d.
 Proof.
   intros mg ps. induction ps as [|p r IH]; intros d H; simpl in *; auto.
-  unfold del_step_mg, del_step in *. destruct (pc_parent p) as [o|]; auto.
+  unfold del_step_mg, del_step in *. destruct (pc_parent p) as [o|]; [|apply IH; exact H].
   apply andb_true_iff in H. destruct H as [H1 H2]. apply negb_true_iff in H1. rewrite H1.
   destruct (app_obj o (del_in (pc_ref p)) d); auto.
 Qed.
